@@ -70,4 +70,5 @@ def run(ctx, R):
     rvhsem.rule_mem_hsem(ctx, R)
     rvdsread.rule_dsread(ctx, R)
     rvdsread.rule_loopload(ctx, R)
+    rvdsread.rule_dsread_light(ctx, R)
     rtpreserve.rule_store_order(ctx, R, 'rv64')
